@@ -34,6 +34,7 @@ type Obligation struct {
 	ReplayGoal  *Term
 	Replay      *replayInfo
 	ExtraAsserts []string
+	ReplayClause *replayClause // the whole ensures clause as written, for concrete evaluation on the real output
 	Stale        string // the loop contract this obligation comes from is out of date (header changed): a failure is undecided
 
 	// results
